@@ -250,6 +250,35 @@ func RunAnyutil(c *core.Ctx) {
 			}
 		})
 		c.Check(okNew, "ANY.value", "anyutil.New delegates", "New calls MarshalFrom", "New does not call MarshalFrom", pos(nw.Pos()), src)
+		// New returns the freshly allocated Any it packed into, and (nil, err) on failure
+		var dstAlloc ssa.Value
+		var mfErr ssa.Value
+		allInstrs(nw, func(b *ssa.BasicBlock, in ssa.Instruction) {
+			if call, ok := in.(*ssa.Call); ok && call.Call.StaticCallee() == mf && len(call.Call.Args) == 3 {
+				if _, isAlloc := call.Call.Args[0].(*ssa.Alloc); isAlloc && call.Call.Args[1] == ssa.Value(nw.Params[0]) {
+					dstAlloc = call.Call.Args[0]
+					mfErr = call
+				}
+			}
+		})
+		okRets := dstAlloc != nil
+		nR := 0
+		allInstrs(nw, func(b *ssa.BasicBlock, in ssa.Instruction) {
+			r, ok := in.(*ssa.Return)
+			if !ok || len(r.Results) != 2 {
+				return
+			}
+			nR++
+			if isNilConst(r.Results[1]) {
+				if r.Results[0] != dstAlloc {
+					okRets = false
+				}
+			} else if !isNilConst(r.Results[0]) || r.Results[1] != mfErr {
+				okRets = false
+			}
+		})
+		c.Check(okRets && nR == 2, "ANY.value", "anyutil.New results", "returns the freshly allocated Any packed from src, or (nil, the marshal error)",
+			"New does not return (the fresh Any it packed, nil) on success and (nil, err) on failure", pos(nw.Pos()), src)
 	}
 
 	// ---------------- nopanic: Unpack / MarshalFrom / New
